@@ -48,6 +48,17 @@ CLAIMS = {
              'dyld.handle_timing_launch_executable, mach.handle_mach_vmfault each run; flag-name rendering is C11',
         technique='Coq proof (list/permutation reasoning over windows) + differential correspondence',
         ref='DESIGN.md §5 C20'),
+    'C19': dict(
+        text='Coq theorems c19_parse (every text of well-formed lines, any number of lines, any inline whitespace, any '
+             'terminator incl. CRLF, any trailing comment -> exactly the (id value, name) pairs), c19_last_wins/nothing_else/'
+             'only_pairs (dict semantics), c19_id_bare/prefixed, c19_absent (an id absent from the supplied table is never '
+             'decoded, any history), c19_renumber; closed under the global context. Tied to the code by a correspondence on '
+             'generated + malformed texts, custom tables through TracesParser and the public API, and an exhaustive check '
+             'of the separator sets against the interpreter.',
+        note='trusted: Coq kernel+vm_compute; hand model TraceCodes.v of splitlines/split/int(_,16) (library oracles, separator '
+             'sets validated over all code points each run; int syntax restricted to (0x|0X)?hex+); pairing model of C04',
+        technique='Coq proof (parser round-trip by induction over lines) + differential correspondence',
+        ref='DESIGN.md §5 C19'),
     'C12': dict(
         text='Coq theorems c12_events/sat_meaning/logs/no_logs_in_events/no_events_in_logs: for EVERY stream and EVERY '
              'configuration the filtered listings equal `filter` of the unfiltered listing by the stated predicate (order and '
